@@ -12,6 +12,29 @@ try:
 except Exception:
     pass
 CLAIMED = set(open(os.path.join(HERE, "tools", "claimed.txt")).read().split())
+
+LEVEL_TEXT = {
+ "C01": "Every RFC 8259 text of a small scope (all trees up to N nodes over boundary alphabets, all spellings and whitespace layouts, five destination states, two pool geometries) is parsed by the real library and compared with an independent parser; exhaustive inside the scope, silent outside it.",
+ "C02": "Every document of a small scope is serialized to every destination kind and into every buffer capacity 0..len+2 (exactly sized heap blocks under ASan) and the text is re-parsed by an independent parser; exhaustive inside the scope.",
+ "C03": "Every byte string up to a length over structural alphabets, every short MessagePack string, every truncation and single-byte substitution of a corpus, through 12 input kinds x 6 limits x 14 filters x 5 builds, under ASan/UBSan with cross-kind equality; memory safety and source independence are decided for that space only.",
+ "C04": "Explicit-state breadth-first search over API histories of the real library (state = history replayed on fresh documents, de-duplicated on model + concrete pool/free-list/string-pool key); every transition is compared with an ordered-tree reference model and concrete-state invariants. All histories up to the stated depth over the stated alphabet are covered.",
+ "C05": "For every (reached state, probe operation) scenario and every small deserialization input, every single allocator failure position, every fail-from-k plan and every pair of positions is executed on the real library; crash-freedom, reporting, frame condition and memory return are checked on each.",
+ "C06": "The C04 search run on ledger allocators (exactly-once release, allocator identity, free-list-before-new-pool probe, reference counts, frozen allocators during reads) plus deserializer inputs around every length boundary and hostile headers with a memory bound; exhaustive inside those bounds.",
+ "C07": "All documents of a small scope are round-tripped through JSON, MessagePack and JSON->MessagePack and compared by independent decoders and by the library's own equality; exhaustive inside the scope.",
+ "C08": "Documents concentrated on every header-width boundary of MessagePack (and all 2^32 float32 values in the thorough tier) are serialized and decoded by an independent strict decoder; exhaustive over the listed boundary sets.",
+ "C09": "Every tree of a small scope is encoded by an independent encoder in every legal width combination (deviation-bounded), and the full text, every proper prefix and every single-byte substitution are decoded by the library and by an independent decoder; two floating-point configurations.",
+ "C10": "All token sequences up to a length over a 46-token alphabet (and character-level micro-alphabets for comments, escapes and numbers, and number tokens around the 63-character limit) are classified by the library and by an independent three-valued recogniser, per option build.",
+ "C11": "All (input, filter) pairs from two bounded tree generators, as JSON and as MessagePack, at the default nesting limit and at the exact depth of the input, compared with a projection function applied to the unfiltered result; three builds.",
+ "C12": "Literal families (every exponent -340..340 x mantissa shapes x point positions, digit runs to 1200 and 2^16, literals padded to 61-63 characters) and binary values (all 2^32 floats in thorough, stratified doubles) against glibc strtold / __int128 with exactly the tolerances of the statement; PROGMEM table build included.",
+ "C13": "All 2^32 bit patterns of each 32-bit storage kind x 12 target types (thorough), boundary sets for 64-bit kinds, numeric strings of every length 1..1300 (also in a PROGMEM build), copyArray over all shape pairs with guard elements, against an interval oracle in __int128.",
+ "C14": "Full matrix string alphabet x 12 source kinds x 47 uses, each run pairwise-differentially against a reference kind with the source buffer overwritten/freed after the call, plus an exhaustive sharing grid and aliasing-operand family; inspector and ledger as additional oracles.",
+ "C15": "Every nesting limit 0..255 x every depth up to 300 (+1000, 5000) x 50 input families x 9 filter placements for both formats, plus stack measurements (constant in input length, linear in L) in default and comments-enabled builds.",
+ "C16": "All sequences of up to 3 documents x separators x suffixes x 6 readers (byte-wise, block-wise, istream windows, Arduino Stream, discard-all filter), position-counting readers and a prefix memo; default and single-precision builds.",
+ "C17": "All 65536 code units x 3 hex casings x 5 positions, unpaired surrogates, all 2^20 surrogate pairs (thorough), all 1- and 2-byte strings as value and key, escapes straddling every string-builder capacity step.",
+ "C18": "All ordered pairs over a 193-value alphabet (1569 with nested containers) x 6 operators x 9 operand forms x both documents placements, and every value against C++ scalars of every type on both sides; five algebraic laws and a reference comparator.",
+ "C19": "An abstract pool machine checked over every pool geometry and bound to the real allocator core by trace equality (one compiled unit per geometry); the C04 search repeated under a matrix of -D configurations; limit-reaching fill/remove/refill scripts and maximum-length strings through five entry points.",
+ "C20": "All schedules with at most P preemptions of 2-3 threads running library operations on distinct documents, switching at the library's call-out seams (allocator, reader, writer), each compared with the sequential run; default and small-pool geometries; a separate free-running ThreadSanitizer pass.",
+}
 checks, na = [], []
 for p in props:
     i = p["id"]
@@ -20,7 +43,7 @@ for p in props:
         c = {"property_id": i, "quick_cmd": "./run %s quick" % i, "thorough_cmd": "./run %s thorough" % i,
              "evidence_file": "evidence/%s.json" % i, "replay_cmd_template": "./run replay {path}",
              "engine": sorted({j["src"] for j in s["quick"]})[0],
-             "level_claimed": {"category": s["level"], "text": s.get("level_text", s["rule"]), "design_ref": s.get("design_ref", "DESIGN.md section 5/" + i)},
+             "level_claimed": {"category": s["level"], "text": LEVEL_TEXT.get(i, s["rule"]), "design_ref": s.get("design_ref", "DESIGN.md section 5/" + i)},
              "level_note": s.get("level_note", "; ".join(s.get("assumptions", []))), "technique": s["technique"]}
         checks.append(c)
     else:
